@@ -54,6 +54,7 @@ pub fn spec(prop: &str) -> Spec {
         "C03" => (vec![s("proxy:C03", 1)], 1200, 40000),
         "C04" => (vec![s("proxy:C04", 1)], 1200, 40000),
         "C05" => (vec![s("proxy:C05", 1)], 1200, 40000),
+        "C06" => (vec![s("ebpf:C06", 1)], 400, 20000),
         "C07" => (vec![s("proxy:C07", 1)], 1500, 60000),
         "C08" => (vec![s("crash:C08", 1)], 16, 500),
         "C09" => (vec![s("keeper:C09", 1)], 1000, 40000),
@@ -68,6 +69,16 @@ pub fn spec(prop: &str) -> Spec {
         "C19" => (vec![s("disk:C19", 1)], 600, 20000),
         _ => (vec![], 0, 0),
     };
+    if prop == "C06" {
+        return Spec {
+            scenarios: scen,
+            quick_runs: q,
+            thorough_runs: t,
+            level: "exploration",
+            rule: "one child run = one workload generated from mix(VERIF_SEED, i) (1-8 processes x 1-4 threads with independently drawn uid/gid/tgid/tid, 1-12 connects each to protected endpoints, near misses, UDP, IPv6, the listener itself and arbitrary others, plus concurrent user-space policy / skip-map edits through the agent's real BpfObject) executed under 100 (quick) or 400 (thorough) schedules of a seeded shuttle scheduler (random or PCT), with a scheduling point before every BPF helper call; one evaluation = one schedule; every completed connect is compared with a reference of the documented behaviour and every record is read back through the agent's real decoders. distinct_nontrivial = number of child runs (workloads) whose schedule digest - a hash of the (thread, helper call) sequence over all their schedules - is distinct and in which at least one connect completed".to_string(),
+            exhaustive: false,
+        };
+    }
     if prop == "C08" {
         return Spec {
             scenarios: scen,
